@@ -56,6 +56,8 @@ var exprVocab = []vocab{
 	{"Null", tokenizers.Keyword, "NULL"}, {"Like", tokenizers.Keyword, "LIKE"},
 	{"Constant", tokenizers.Keyword, "TRUE"}, {"Constant", tokenizers.Quoted, "s"}, {"Constant", tokenizers.Float, "2.5"},
 	{"Unknown", tokenizers.Symbol, "$"},
+	// Keyword-typed tokens whose spelling is no keyword of the language (token entry only: the lexer never makes them)
+	{"Unknown", tokenizers.Keyword, "YES"}, {"Unknown", tokenizers.Keyword, "T"}, {"Unknown", tokenizers.Keyword, "MAYBE"},
 	// identifiers that are spelled like operators (a quoted identifier "and" is a word, not the operator)
 	{"Variable", tokenizers.Word, "and"}, {"Variable", tokenizers.Word, "NULL"}, {"Variable", tokenizers.Word, "not"}, {"Variable", tokenizers.Word, "+"},
 }
@@ -212,6 +214,10 @@ func execC02(seg []Ev) []Ev {
 			case v.kind == "Constant" && v.typ == tokenizers.Integer:
 				text = fmt.Sprint(i + 1)
 				ktext = text
+				if i%2 == 1 { // every other integer literal is written with a redundant leading zero (the same number: 011 is eleven)
+					ktext = fmt.Sprint(i + 10)
+					text = "0" + ktext
+				}
 			case v.kind == "Variable" && v.text != "a":
 				ktext = text // spelled like an operator: kept as is
 			case v.kind == "Variable":
@@ -281,6 +287,12 @@ func execC02(seg []Ev) []Ev {
 				}
 				if k == "Constant" && tx == "#num" {
 					tx = t.Value()
+					if allDigits(tx) && len(tx) > 1 {
+						tx = strings.TrimLeft(tx, "0") // the number the literal denotes
+						if tx == "" {
+							tx = "0"
+						}
+					}
 				}
 				toks = append(toks, []string{k, tx})
 			}
@@ -354,6 +366,29 @@ func genC02(g *Gen) {
 		}
 	}
 	rec3(nil)
+	// every ordered pair of operator forms in a chain  x OP1 y OP2 z  (the multi-token forms NOT LIKE, NOT IN, IS NULL, IS NOT NULL
+	// included; a postfix form takes no right operand), through both entries
+	{
+		bin := [][]string{{"AND"}, {"OR"}, {"XOR"}, {"="}, {"<>"}, {"!="}, {">"}, {"<"}, {">="}, {"<="}, {"+"}, {"-"}, {"LIKE"}, {"NOT", "LIKE"}, {"NOT", "IN"},
+			{"*"}, {"/"}, {"%"}, {"^"}, {"IN"}, {"<<"}, {">>"}}
+		post := [][]string{{"IS", "NULL"}, {"IS", "NOT", "NULL"}}
+		all := append(append([][]string{}, bin...), post...)
+		for i1, o1 := range all {
+			for _, o2 := range all {
+				ts := append([]string{"a"}, o1...)
+				if i1 < len(bin) {
+					ts = append(ts, "a")
+				}
+				ts = append(ts, o2...)
+				if len(o2) > 0 && !(o2[0] == "IS") {
+					ts = append(ts, "a")
+				}
+				run("every ordered pair of operator forms in a chain (ParseTokens)", "tokens", ts)
+				run("every ordered pair of operator forms in a chain (ParseString)", "string", ts)
+				run("every ordered pair of operator forms in a chain, prefixed (ParseTokens)", "tokens", append([]string{"NOT", "-"}, ts...))
+			}
+		}
+	}
 	// full vocabulary exhaustively <= 2 (quick) / 3 (thorough), both entries
 	ln2 := g.Pick(2, 3)
 	var rec2 func(cur []string)
